@@ -40,6 +40,10 @@ trait Proj: Tweenable + Copy + 'static {
 	const UNIT: f64;
 	const OFF: f64;
 	fn make(c: f64) -> Self;
+	/// the initial value (a type may start in another unit than its targets)
+	fn init(c: f64) -> Self {
+		Self::make(c)
+	}
 	fn get(self) -> f64;
 	fn same(a: Self, b: Self) -> bool;
 	fn coherent(self, _loose: bool) -> bool {
@@ -178,6 +182,57 @@ impl Proj for ClockSpeed {
 	}
 }
 
+/// a clock speed that starts in ticks per second and is sent to targets in seconds per tick: the tween has to
+/// run in the unit of its target (linear in seconds per tick)
+#[derive(Clone, Copy, PartialEq)]
+struct SpeedToSpt(ClockSpeed);
+impl Tweenable for SpeedToSpt {
+	fn interpolate(a: Self, b: Self, amount: f64) -> Self {
+		SpeedToSpt(ClockSpeed::interpolate(a.0, b.0, amount))
+	}
+}
+impl Proj for SpeedToSpt {
+	const UNIT: f64 = 1.0;
+	const OFF: f64 = 3.0;
+	fn make(c: f64) -> Self {
+		SpeedToSpt(ClockSpeed::SecondsPerTick(c))
+	}
+	fn init(c: f64) -> Self {
+		SpeedToSpt(ClockSpeed::TicksPerSecond(1.0 / c))
+	}
+	fn get(self) -> f64 {
+		self.0.as_seconds_per_tick()
+	}
+	fn same(a: Self, b: Self) -> bool {
+		a == b
+	}
+}
+
+/// ... and one that starts in seconds per tick and is sent to targets in ticks per minute
+#[derive(Clone, Copy, PartialEq)]
+struct SpeedToTpm(ClockSpeed);
+impl Tweenable for SpeedToTpm {
+	fn interpolate(a: Self, b: Self, amount: f64) -> Self {
+		SpeedToTpm(ClockSpeed::interpolate(a.0, b.0, amount))
+	}
+}
+impl Proj for SpeedToTpm {
+	const UNIT: f64 = 1.0;
+	const OFF: f64 = 3.0;
+	fn make(c: f64) -> Self {
+		SpeedToTpm(ClockSpeed::TicksPerMinute(c * 60.0))
+	}
+	fn init(c: f64) -> Self {
+		SpeedToTpm(ClockSpeed::SecondsPerTick(1.0 / c))
+	}
+	fn get(self) -> f64 {
+		self.0.as_ticks_per_minute() / 60.0
+	}
+	fn same(a: Self, b: Self) -> bool {
+		a == b
+	}
+}
+
 impl Proj for Vec3 {
 	// (x, -x, x/2): every component must follow the same curve
 	const UNIT: f64 = 1.0;
@@ -240,7 +295,7 @@ fn run<T: Proj>(sc: &Value, tr: &mut Tracer) {
 	let conc = |n: i64| T::OFF + (n as f64 / scale_in) * T::UNIT;
 	let proj = |v: T, mul: f64| clamp_i(((v.get() - T::OFF) / T::UNIT) * scale_out * mul);
 
-	let v0 = T::make(conc(sc["v0"].as_i64().unwrap_or(0)));
+	let v0 = T::init(conc(sc["v0"].as_i64().unwrap_or(0)));
 	tr.reset(json!({
 		"ty": sc["ty"], "mode": if loose { "loose" } else { "exact" }, "scale": scale_out as i64,
 		"tol": if loose { 3 } else { 0 }, "v0": proj(v0, 1.0), "src": sc["src"],
@@ -338,6 +393,8 @@ fn main() {
 			"dur" => run::<Duration>(&sc, &mut tr),
 			"cspeed" => run::<ClockSpeed>(&sc, &mut tr),
 			"vec3" => run::<Vec3>(&sc, &mut tr),
+			"cspeed_s" => run::<SpeedToSpt>(&sc, &mut tr),
+			"cspeed_m" => run::<SpeedToTpm>(&sc, &mut tr),
 			other => panic!("unknown type {other}"),
 		}
 	}
